@@ -365,6 +365,17 @@ class Sym:
                 return max(vals)
             if f == 'MIN':
                 return min(vals)
+            if f in ('BITAND', 'BITOR', 'BITXOR', 'LSHIFT', 'RSHIFT') and all(
+                    v.denominator == 1 for v in vals):
+                x, y = int(vals[0]), int(vals[1])
+                return Fraction({'BITAND': x & y, 'BITOR': x | y, 'BITXOR': x ^ y,
+                                 'LSHIFT': x << y if 0 <= y < 256 else 0,
+                                 'RSHIFT': x >> y if 0 <= y < 256 else 0}[f])
+            if f == 'SQRT' and vals[0] >= 0:
+                import math as _m
+                r = _m.isqrt(vals[0].numerator * vals[0].denominator)
+                if r * r == vals[0].numerator * vals[0].denominator:
+                    return Fraction(r, vals[0].denominator)
             raise KeyError(f)
 
         def ev_poly(p):
